@@ -10,6 +10,12 @@
    kind = "compress": {A, T, chain, hasFP, d, oc, B}
         compress(BinaryCIFData(A), float_tolerance = 1/T) was serialised and read back;
         chain is the encoding compress() chose (hasFP / d: it starts with FixedPoint(10^d)).
+   kind = "compressx": {A, T, oc, B, packed, hasFP, d}
+        the same for a float array of decimal floats of any magnitude (A.v: [k, m, p], see BcifEncoding
+        "floats of any magnitude").  oc: "ok" / "Rejected" / "Diverges" (compress() used more CPU time
+        than a thousand ordinary calls); B: what BinaryCIFData.deserialize(compress(..).serialize())
+        returns, element i projected with the unit 10^A.v[i].p; packed: "ok" when the msgpack round
+        trip works and gives the same array, "Rejected" when it raises, "differs" otherwise.
    kind = "file":     {cin, cout, eq}
         a BinaryCIFFile with the columns cin (each [name, A, M] with M = <<>> or <<mask array>>)
         was written and read; cout what came back, eq: read file == written file.
@@ -17,6 +23,9 @@
    Printed, never stopping:
      <<"MISMATCH", tid, i, "known" | "unknown", kb, expected outcome>>
      <<"NOTDOM", tid, i>>       the generator left the domain (machinery failure)
+     <<"OUTDOM", tid, i>>       compressx: float arithmetic does not decide the search for the decimals the
+                                way decimal arithmetic does (Dom_SciDecisive); the event is skipped, counted
+     <<"DDIFF", tid, i>>        diagnostic: compress() chose another number of decimals than the model
      <<"NOTCAND", tid, i>>      diagnostic: compress() chose a chain outside the twelve candidates *)
 EXTENDS BcifEncoding, Json, IOUtils
 
@@ -54,6 +63,27 @@ JudgeCompress(e, i) ==
              ELSE LET kb == IF KB_CompressFloat(e.A, e.hasFP, e.d) THEN {"CompressFloatUnchecked"} ELSE {} IN
                   PrintT(<<"MISMATCH", tid, i, IF kb # {} /\ e.oc = "ok" THEN "known" ELSE "unknown", kb, "ok">>)
 
+JudgeCompressX(e, i) ==
+  IF ~(Dom_SciArray(e.A) /\ Dom_SciTol(e.A.t, e.T)) THEN PrintT(<<"NOTDOM", tid, i>>)
+  ELSE IF ~Dom_SciDecisive(e.A, e.T) THEN PrintT(<<"OUTDOM", tid, i>>)
+  ELSE LET t == e.A.t
+           hang == SciHang(e.A, e.T)
+           d == IF hang THEN 0 ELSE SciDecimals(e.A, e.T)
+           shape == e.oc = "ok" /\ Len(e.B.v) = Len(e.A.v) /\ e.B.t = t
+           good(j) == AcceptSci(t, e.T, e.A.v[j], e.B.v[j])
+           values == shape /\ \A j \in DOMAIN e.A.v : good(j)
+           ok == values /\ e.packed = "ok"
+           \* the recorded defects, each only in its own shape
+           kb == (IF KB_SciUnbounded(e.A, e.T) /\ e.oc = "Diverges" THEN {"CompressDecimalsUnbounded"} ELSE {})
+                 \cup (IF KB_SciFactor(e.A, e.T) /\ values /\ e.hasFP /\ e.d >= 20 /\ e.packed = "Rejected"
+                       THEN {"CompressFactorUnserialisable"} ELSE {})
+                 \cup (IF KB_SciFloat32Range(e.A, e.T) /\ shape /\ e.hasFP /\ e.d = d /\ e.packed = "ok"
+                          /\ \A j \in DOMAIN e.A.v : good(j) \/ SciZone(t, e.A.v[j], d)
+                       THEN {"CompressFloat32RangeCheck"} ELSE {})
+       IN /\ (IF e.oc = "ok" /\ e.hasFP /\ ~hang /\ e.d # d THEN PrintT(<<"DDIFF", tid, i>>) ELSE TRUE)
+          /\ IF ok THEN TRUE
+             ELSE PrintT(<<"MISMATCH", tid, i, IF kb # {} THEN "known" ELSE "unknown", kb, "ok">>)
+
 JudgeFile(e, i) ==
   IF e.eq /\ e.cout = e.cin THEN TRUE ELSE PrintT(<<"MISMATCH", tid, i, "unknown", {}, "ok">>)
 
@@ -64,6 +94,7 @@ Next == /\ l < Len(Tr[tid])
         /\ LET e == Tr[tid][l + 1] IN
            CASE e.kind = "chain" -> JudgeChain(e, l + 1)
              [] e.kind = "compress" -> JudgeCompress(e, l + 1)
+             [] e.kind = "compressx" -> JudgeCompressX(e, l + 1)
              [] e.kind = "file" -> JudgeFile(e, l + 1)
 Spec == Init /\ [][Next]_tvars
 =============================================================================
